@@ -29,6 +29,23 @@ Proof. intros H. unfold check_permission. rewrite H. reflexivity. Qed.
 Lemma sticky_admin h d n u : us_admin u = true -> sticky_refuses h d n u = false.
 Proof. intros H. unfold sticky_refuses. rewrite H. cbn [negb]. rewrite andb_false_r. reflexivity. Qed.
 
+(* Getwd answers the working-directory string, or refuses for want of search permission; never the administrator *)
+Lemma getwd_cases s v : getwd s v = RStr (v_cwd v) \/ getwd s v = RFail EPermDenied.
+Proof.
+  unfold getwd. set (r := search_node s v (v_cwd v) SlLstat). destruct (sr_child r); [|left; reflexivity].
+  destruct (is_file_exists (sr_err r)); [|left; reflexivity].
+  destruct (get (f_heap s) n) as [[ch m| |]|]; try (left; reflexivity).
+  destruct (check_permission m OpenLookup (v_user v)); [left|right]; reflexivity.
+Qed.
+
+Lemma getwd_admin s v : us_admin (v_user v) = true -> getwd s v = RStr (v_cwd v).
+Proof.
+  intros H. unfold getwd. set (r := search_node s v (v_cwd v) SlLstat). destruct (sr_child r); [|reflexivity].
+  destruct (is_file_exists (sr_err r)); [|reflexivity].
+  destruct (get (f_heap s) n) as [[ch m| |]|]; try reflexivity.
+  rewrite check_permission_admin by exact H. reflexivity.
+Qed.
+
 Lemma set_mode_ok_admin m u : us_admin u = true -> set_mode_ok m u = true.
 Proof. intros H. unfold set_mode_ok. rewrite H. apply orb_true_r. Qed.
 
